@@ -338,7 +338,9 @@ def grammarOk (inp : Input) : Bool :=
   wfNewSide inp.src inp.srcNew && wfNewSide inp.dest inp.destNew &&
   (plan inp).st.toC.all (fun c => !isSubStrat c.strat || subNamesAgree c.rd.ty c.wr.ty) &&
   (plan inp).st.fromC.all (fun c => !isSubStrat c.strat || subNamesAgree c.wr.ty c.rd.ty) &&
-  (leavesOf inp.dest).all (fun d => match d.decl.tag with | .name _ => false | _ => true)
+  (leavesOf inp.dest).all (fun d => match d.decl.tag with | .name _ => false | _ => true) &&
+  -- the oracle decodes an `any` leaf as ONE value: a whole slice of structs stored in it cannot be traced element by element
+  ((plan inp).st.toC ++ (plan inp).st.fromC).all (fun c => !(c.wr.ty == .basic "any" && (match c.rd.ty with | .slice _ => true | _ => false)))
 
 /-- the generator's pair loop visits every reading field with at most one partner, and vice versa -/
 def uniquePairs (inp : Input) : Bool :=
